@@ -315,8 +315,10 @@ impl Report {
                 let st = s.start_ms.load(Ordering::Relaxed);
                 if st != 0 && now > st && now - st > limit_ms {
                     let info = s.info.lock().unwrap().clone();
-                    let path = format!("{}/replays/{}-watchdog-{}.json", rep.verif_dir, rep.id, i);
-                    let _ = std::fs::create_dir_all(format!("{}/replays", rep.verif_dir));
+                    // (VERIF_OUT_DIR redirects replay output, as for violations)
+                    let dir = std::env::var("VERIF_OUT_DIR").unwrap_or_else(|_| rep.verif_dir.clone());
+                    let path = format!("{}/replays/{}-watchdog-{}.json", dir, rep.id, i);
+                    let _ = std::fs::create_dir_all(format!("{}/replays", dir));
                     let _ = std::fs::write(
                         &path,
                         // random sections: the choice bytes; enumerated sections: the position in the worker's partition (the enumeration is a
